@@ -45,6 +45,12 @@ PartialK4 ==
         Slots == {ab \in (1..4) \X (1..4) : ab[1] # ab[2]}
     IN UNION {{Dec(p0, <<Lf(0), Dec(p1, Kids4(ab[1], Lf(1), ab[2], Dec(q, Kids4(l, Lf(2), 0, Missing)))), Missing, Missing>>)
                   : ab \in Slots, l \in 1..2} : p0 \in one, p1 \in two, q \in one}
+\* fault sweeps: chains of three decisions (a decision at depth 2 whose LP call can be made to fail while an ancestor holds witnesses)
+Chain3 ==
+    LET tm == CHOOSE a \in TermSet(TF) : TRUE
+        Lf(k) == Leaf([tm EXCEPT !.b = [i \in 1..Len(tm.b) |-> IF i = 1 THEN 10 * k ELSE tm.b[i]]])
+    IN UNION {{Dec(p0, <<Dec(p1, <<Dec(p2, <<Lf(1), Lf(2)>>), Lf(3)>>), Lf(4)>>), Dec(p0, <<Lf(4), Dec(p1, <<Lf(3), Dec(p2, <<Lf(1), Lf(2)>>)>>)>>)}
+              : p0 \in PredSet(PF), p1 \in PredSet(PF), p2 \in PredSet(PF)}
 \* reduce: every total tree shape with exactly n decisions (one predicate, terminals from two functions): unbalanced trees in which
 \* a decision that cannot be merged precedes, in the reverse breadth-first sweep, one that can
 RECURSIVE FullN(_, _, _)
@@ -54,6 +60,7 @@ FullTrees == LET ts == TermSet(TF)  t1 == CHOOSE a \in ts : TRUE  t2 == CHOOSE a
              IN FullN(3 + NG, CHOOSE x \in PredSet(PF) : TRUE, {t1, t2})          \* NG = 1: 4 decisions, NG = 2: 5 decisions
 FSet == TreesN(NF, PredSet(PF), TermSet(TF), K) \cup (IF MODE = "reduce" /\ NG >= 1 THEN CascadeTrees \cup FullTrees ELSE {})
         \cup (IF MODE = "prune" /\ K = 4 THEN PartialK4 ELSE {})
+        \cup (IF MODE = "fault" /\ Len((CHOOSE p \in PredSet(PF) : TRUE).m[1]) = 1 THEN Chain3 ELSE {})      \* one input coordinate only (cost)
 GSetAll == TreesN(NG, PredSet(PG), TermSet(TG), K)
 \* "arithdeep": deep total right operands (paths of different length below the grafted root), + and - only
 \* unbalanced total operands: one branch of the root is one level deeper than the other (both orientations), every predicate from PG
@@ -330,6 +337,13 @@ Emit ==
                                           steps |-> <<Step("eliminate"),
                                                       [op |-> "compose_prune", aff |-> [m |-> <<>>, b |-> <<>>, q |-> 1],
                                                        rhs |-> ScriptOf(Dec(P(<<1, 0>>, 0), <<Missing, Leaf(Aff(<<<<0, 0>>, <<0, 1>>>>, <<0, 0>>))>>), K, "dfs")]>>,
+                                          faults |-> <<>>, faultsweep |-> NG]))
+             \* no elimination before (every node still undecided) and an operand of depth 2: edges below the first grafted level
+             /\ PrintT("SCRIPT " \o ToJson([fam |-> "afftree", k |-> K, q |-> 1, mode |-> "history", lhs |-> ScriptOf(f'.abs, K, f'.lay),
+                                          steps |-> <<[op |-> "compose_prune", aff |-> [m |-> <<>>, b |-> <<>>, q |-> 1],
+                                                       rhs |-> ScriptOf(Dec(P(<<1, 0>>, 0), <<Dec(P(<<0, 1>>, 1), <<Leaf(Aff(<<<<1, 0>>, <<0, 1>>>>, <<0, 0>>)),
+                                                                                                                   Leaf(Aff(<<<<0, 1>>, <<1, 0>>>>, <<1, -2>>))>>),
+                                                                                               Leaf(Aff(<<<<0, 0>>, <<0, 1>>>>, <<0, 0>>))>>), K, "dfs")]>>,
                                           faults |-> <<>>, faultsweep |-> NG]))
         ELSE IF MODE \in {"prune", "pruneg", "prunea", "prunedeep"}
         THEN PrintT("SCRIPT " \o ToJson([fam |-> "afftree", k |-> K, q |-> 1, mode |-> "history", lhs |-> ScriptOf(f'.abs, K, f'.lay),
